@@ -348,6 +348,9 @@ def run_family(chk, props, devices=("naive", "eigen"), tier=None):
             # oracles on the implementation alone
             for (prop, key, what, idx) in oracle(lines, impl):
                 if prop in props:
+                    if any(v["key"] == key for v in chk.violations) or chk.match_known(key):
+                        chk.report(key, what, {})          # counted (or matched as known) without minimising it again
+                        continue
                     def still(ls, prop=prop, key=key):
                         im, _ = vrun.run_impl(exe, ls, stateful=True, args=[dev], timeout=60)
                         return any(p == prop and k == key for (p, k, _, _) in oracle(ls, im))
@@ -360,6 +363,9 @@ def run_family(chk, props, devices=("naive", "eigen"), tier=None):
                     break
                 if not vrun.same(impl[i], model[i]):
                     total_dis += 1
+                    ckey = "correspondence:graph:" + l.split()[0]
+                    if any(v["key"] == ckey for v in chk.violations) or any(p in props for (p, _, _, _) in oracle(lines, impl)):
+                        break   # this disagreement is already reported (with its minimised history) or has a failing input
                     def differs(ls):
                         im, _ = vrun.run_impl(exe, ls, stateful=True, args=[dev], timeout=60)
                         mo = vrun.run_model("graph", ls)
